@@ -2,7 +2,7 @@
    implementation.  A direction carries the values the implementation's own sub-routines return for it (harmonics,
    their derivatives, sines / cosines, phi); spline values are supplied by the recorded CubicSpline objects.
    No proofs in this file. *)
-From Coq Require Import List ZArith Bool.
+From Coq Require Import List ZArith Bool Sint63.
 From Bignums Require Import BigQ.
 From P Require Import C09_model C09_gen.
 Import ListNotations.
@@ -13,6 +13,13 @@ Definition QOps : NumOps bigQ := MkOps bigQ 0%bigQ 1%bigQ BigQ.add BigQ.sub BigQ
 (* m * 2^e *)
 Definition dy (m e : Z) : bigQ :=
   if (0 <=? e)%Z then BigQ.Qz (BigZ.of_Z (m * 2 ^ e)) else BigQ.Qq (BigZ.of_Z m) (BigN.of_N (Z.to_N (2 ^ (- e)))).
+(* data arrive as primitive (signed 63-bit) integer literals, which Coq parses natively: mantissa and exponent of a double *)
+Definition dq (m e : int) : bigQ := dy (Sint63.to_Z m) (Sint63.to_Z e).
+Fixpoint dl (l : list int) : list bigQ :=
+  match l with
+  | m :: e :: r => dq m e :: dl r
+  | _ => []
+  end.
 Definition of_nd (p : Z * Z) : bigQ := BigQ.Qq (BigZ.of_Z (fst p)) (BigN.of_N (Z.to_N (snd p))).
 Definition eps_small_q : bigQ := of_nd eps_small_nd.
 Definition eps_jac_q : bigQ := of_nd eps_jac_nd.
